@@ -1652,7 +1652,8 @@ def refraction_apparent2true(apparent_elevation, pressure=1010.0,
     r = 1.0 / tan(x.rad()) + 0.0013515
     r = Angle(r / 60.0)  # The 'r' value is in minutes of arc
     if pressure != 1010.0 or temperature != 10.0:
-        r = r * pressure / 1010.0 * 283.0 / (273.0 + temperature)
+        # Scale with a plain factor: 'r * pressure' alone would be reduced mod 360
+        r = r * (pressure / 1010.0 * 283.0 / (273.0 + temperature))
     return apparent_elevation - r
 
 
@@ -1703,7 +1704,8 @@ def refraction_true2apparent(true_elevation, pressure=1010.0,
     r = 1.02 / tan(x.rad()) + 0.0019279
     r = Angle(r / 60.0)  # The 'r' value is in minutes of arc
     if pressure != 1010.0 or temperature != 10.0:
-        r = r * pressure / 1010.0 * 283.0 / (273.0 + temperature)
+        # Scale with a plain factor: 'r * pressure' alone would be reduced mod 360
+        r = r * (pressure / 1010.0 * 283.0 / (273.0 + temperature))
     return true_elevation + r
 
 
